@@ -1206,6 +1206,19 @@ fn exact_quotients(st: &mut Stats, rng: &mut Rng) {
     st.eval();
     match catch(|| { let mut v = mk(&zw); v /= w; v.vec }) { Outcome::Ok(q) => if q != z { st.violation("C15:div-assign-scalar:Complex<f64>:inexact-on-exact-data", format!("v /= w gives {:?} expected {:?}; w={:?}", q, z, w)); }, o => st.violation("C15:div-assign-scalar:Complex<f64>:refused", o.describe()) }
     st.count("exact-quotient-cases");
+    // aliasing: the same vector on both sides (exact over Rat)
+    let r: Vec<Rat> = (0..n).map(|_| Rat::int(rng.int(-9, 9))).collect();
+    let vr = mk(&r);
+    st.eval();
+    match catch(|| ((&vr + &vr).vec, (&vr - &vr).vec, vr.dot(&vr))) {
+        Outcome::Ok((p, q, dd)) => {
+            let dbl: Vec<Rat> = r.iter().map(|x| *x + *x).collect();
+            let sq = r.iter().fold(Rat::ZERO, |a, x| a + *x * *x);
+            if p != dbl || q != vec![Rat::ZERO; n] || dd != sq { st.violation("C15:aliased-operands:Rat:wrong-value", format!("v={:?}: v+v={:?} v-v={:?} v.v={:?}", r, p, q, dd)); }
+        }
+        Outcome::Overflow => {}
+        o => st.violation("C15:aliased-operands:Rat:refused", format!("v={:?}: {}", r, o.describe())),
+    }
 }
 
 pub fn run(ctx: &Ctx) -> Report {
